@@ -23,7 +23,11 @@ _GHOST_OK = re.compile(r'^\s*(proof\s*\{|let ghost |invariant|invariant_except_b
 
 class FnSpec:
     def __init__(self, file, name, impl=None, mod=None, contract='', ret='r', rewrites=(), inserts=(),
-                 sig_rewrites=(), attrs=''):
+                 sig_rewrites=(), attrs='', block=None):
+        # block = (header_regex, synthetic_signature, tail): instead of a whole fn, extract the `{ .. }` block that
+        # follows the unique match of header_regex inside fn `name` (e.g. one match arm) and wrap it as a function
+        # with the given signature; `tail` (e.g. `Ok(())`) is appended as the wrapper's result expression.
+        self.block = block
         self.file, self.name, self.impl, self.mod = file, name, impl, mod
         self.contract, self.ret = contract, ret
         self.rewrites, self.inserts, self.sig_rewrites = list(rewrites), list(inserts), list(sig_rewrites)
@@ -65,6 +69,15 @@ def build_fn(spec, dropped, located):
                     'lines': [ex.line0, ex.line1],
                     'sha256': hashlib.sha256(ex.raw.encode()).hexdigest()[:16]})
     sig, body = ex.sig, ex.body
+    if spec.block:
+        header_re, synth_sig, tail = spec.block
+        _, ob, cb = rsx.find_block(ex.body, header_re)
+        inner = ex.body[ob:cb + 1]
+        k = inner.rstrip().rfind('}')
+        body = inner[:k] + '\n' + tail + '\n' + inner[k:]
+        sig = synth_sig
+        dropped.append(f'{spec.name}: only the block after /{header_re}/ is extracted and wrapped as `{synth_sig.strip()}` with result `{tail}`; '
+                       'the rest of the function is not part of the verified text')
     for old, new, count, rule in spec.sig_rewrites:
         sig = rsx.replace_exact(sig, old, new, count, f'{spec.name} signature {rule}')
         dropped.append(f'{spec.name}: signature rewrite {rule}: `{old}` -> `{new}`')
